@@ -7,6 +7,8 @@ Rewrites (all applied to the function at once; `--only` picks one):
   hoist   if <test>: ...  ->  _sa_t = <test>; if _sa_t: ...
   ret     return <expr>   ->  _sa_r = <expr>; return _sa_r
   none    x is not None   ->  not (x is None)
+  kw      f(a, b, c)      ->  f(a, y=b, z=c)   for calls that resolve to ONE repository function (no *args)
+  guard   for ...: if c: continue; REST  ->  for ...: if not c: REST      (likewise `if c: return` at the top level of a function that returns nothing)
 
 usage: refactor_twins.py [--only flip|negate|hoist|ret|none] [--match substr] [Cxx ...]
 """
@@ -24,7 +26,7 @@ from sa import index
 
 BASE = None
 PROPS = []
-KINDS = ('flip', 'negate', 'hoist', 'ret', 'none')
+KINDS = ('flip', 'negate', 'hoist', 'ret', 'none', 'kw', 'guard')
 
 
 def _has_call(n):
@@ -54,14 +56,33 @@ class Rewriter(ast.NodeTransformer):
       return ast.UnaryOp(op=ast.Not(), operand=ast.Compare(left=node.left, ops=[ast.Is()], comparators=node.comparators))
     return node
 
-  def _block(self, stmts):
+  def _block(self, stmts, in_loop=False, fn_top=False):
     out = []
     for st in stmts:
+      if isinstance(st, (ast.For, ast.While)):
+        st.body = self._block(st.body, in_loop=True)
+        st.orelse = self._block(st.orelse)
+        if isinstance(st, ast.For):
+          st.iter = self.visit(st.iter)
+        else:
+          st.test = self.visit(st.test)
+        out.append(st)
+        continue
       st = self.visit(st)
       if isinstance(st, list):
         out.extend(st)
       else:
         out.append(st)
+    if 'guard' in self.kinds and (in_loop or fn_top):
+      # fold guard clauses from the back: [..., if c: continue, REST...] -> [..., if not c: REST...]
+      k = len(out) - 1
+      while k >= 0:
+        g = out[k]
+        leave = ast.Continue if in_loop else ast.Return
+        if isinstance(g, ast.If) and not g.orelse and len(g.body) == 1 and isinstance(g.body[0], leave) and (in_loop or g.body[0].value is None) and k + 1 < len(out):
+          self.n += 1
+          out[k:] = [ast.If(test=ast.UnaryOp(op=ast.Not(), operand=g.test), body=out[k + 1:], orelse=[])]
+        k -= 1
     return out
 
   def visit_If(self, node):
@@ -109,6 +130,17 @@ class Rewriter(ast.NodeTransformer):
         setattr(node, field, self.visit(old))
     return node
 
+  def visit_Call(self, node):
+    self.generic_visit(node)
+    names = getattr(node, '_sa_kw', None)
+    if 'kw' in self.kinds and names and len(node.args) >= 2 and not any(isinstance(a, ast.Starred) for a in node.args) \
+        and len(node.args) <= len(names) and not ({k.arg for k in node.keywords} & set(names[:len(node.args)])):
+      self.n += 1
+      extra = [ast.keyword(arg=names[i], value=a) for i, a in enumerate(node.args) if i >= 1]
+      node.args = node.args[:1]
+      node.keywords = extra + node.keywords
+    return node
+
   def visit_Lambda(self, node):
     return node   # no statements inside a lambda
 
@@ -121,7 +153,8 @@ class Rewriter(ast.NodeTransformer):
 def rewrite_function(src: str, fn: ast.FunctionDef, kinds) -> tuple:
   new_fn = copy.deepcopy(fn)
   rw = Rewriter(kinds)
-  new_fn.body = rw._block(new_fn.body)  # pylint: disable=protected-access
+  returns_value = any(isinstance(n, ast.Return) and n.value is not None for n in ast.walk(new_fn))
+  new_fn.body = rw._block(new_fn.body, fn_top=not returns_value)  # pylint: disable=protected-access
   if rw.n == 0:
     return None, 0
   ast.fix_missing_locations(new_fn)
@@ -132,6 +165,32 @@ def rewrite_function(src: str, fn: ast.FunctionDef, kinds) -> tuple:
   # the repository indents with two spaces; ast.unparse with four - only consistency matters
   new_text = textwrap.indent(text, ' ' * indent) + '\n'
   return ''.join(lines[:first - 1]) + new_text + ''.join(lines[fn.end_lineno:]), rw.n
+
+
+def annotate_calls():
+  """Marks every call that resolves to exactly one repository function with that function's positional parameter names."""
+  from sa import callgraph, report  # pylint: disable=g-import-not-at-top
+  ctx = report.Ctx('C01', BASE, 'quick', 0, True)
+  cg = callgraph.get(ctx)
+  n = 0
+  for caller, sites in cg.sites.items():
+    for s_ in sites:
+      if len(s_.callees) != 1 or s_.kind != 'resolved':
+        continue
+      f = s_.callees[0]
+      a = f.node.args
+      if a.vararg is not None or a.posonlyargs:
+        continue
+      names = [x.arg for x in a.args]
+      if f.is_method or (f.cls is not None and getattr(f, 'is_classmethod', False)):
+        names = names[1:]
+      caller_params = {x.arg for x in s_.caller.node.args.args + s_.caller.node.args.kwonlyargs}
+      if isinstance(s_.node.func, ast.Name) and s_.node.func.id in caller_params:
+        continue   # a call through a function-valued parameter: its keyword names are the callback's business
+      if isinstance(s_.node.func, ast.Attribute) or isinstance(s_.node.func, ast.Name):
+        s_.node._sa_kw = names  # pylint: disable=protected-access
+        n += 1
+  return n
 
 
 def variants(kinds, match):
@@ -191,6 +250,8 @@ def main():
     match = args[i + 1]
     del args[i:i + 2]
   BASE = index.load_repo()
+  if 'kw' in kinds:
+    print(annotate_calls(), 'call sites resolved for the kw rewrite', flush=True)
   PROPS = args or [c['property_id'] for c in json.load(open('/verif/MANIFEST.json'))['checks']]
   vs = list(variants(kinds, match))
   print(f'{len(vs)} functions; rewrites {kinds}; properties {PROPS}', flush=True)
